@@ -77,6 +77,11 @@ _with("w_fin", "fin", "24", QUICK, classes=USER)
 _with("w_tags", "tags", '"X"', QUICK, classes=USER)
 _with("w_dyn", "dyn", "25", THOROUGH, classes=USER)
 
+# dependencies of the generated class universes (GEN_KEYS), supplied by a specifier
+for _k, _v in (("y1", "111"), ("y2", "222"), ("y3", "333"), ("y4", "444")):
+    _with("w_" + _k, _k, _v, TABLE, classes=())
+GEN_KEYS = ("w_y1", "w_y2", "w_y3", "w_y4", "w_foo")
+
 # -- position -----------------------------------------------------------------------
 _p = _pt()
 _add("at_v", "position", f"at {_p}", f"At({_p})", M.T_AT, CORE)
@@ -180,9 +185,16 @@ ORDER: Dict[str, int] = {i.key: n for n, i in enumerate(_INSTS)}
 @dataclasses.dataclass(frozen=True)
 class ClassDef:
     name: str
-    base: str  # Object | OrientedPoint | Point | user class
+    base: object  # Object | OrientedPoint | Point | user class, or a tuple of user classes
     props: Tuple[Tuple[str, Tuple[str, ...], str], ...]  # (property, attributes, expression)
     modes: Tuple[bool, ...] = (False, True)
+    group: str = "base"  # which prelude defines the class: base | chain | mi
+    family: Optional[str] = None  # classes differing only in the order of their lines
+    instantiate: bool = True
+
+    @property
+    def bases(self) -> Tuple[str, ...]:
+        return self.base if isinstance(self.base, tuple) else (self.base,)
 
 
 CLASSES: List[ClassDef] = [
@@ -220,12 +232,108 @@ CLASSES: List[ClassDef] = [
     # a derived (final) property that built-in specifiers other than `with` specify
     ClassDef("F", "Object", (("a", (), "4"), ("parentOrientation", ("final",), "(self.a / 40, 0, 0)"))),
 ]
-CLASSDEFS = {c.name: c for c in CLASSES}
 BUILTIN = ("Object", "OrientedPoint", "Point")
 
 
+# -- generated class universes: merging of defaults along inheritance -------------------
+# One property `foo` is declared, per class of a hierarchy, in one of five ways; every level
+# reads its own dependency y<k>, so that a merged default needs exactly the union.
+FOO = ("0", "P", "Pd", "Ac", "Ad")  # absent | plain | plain, self. | additive | additive, self.
+
+
+def _foo_line(opt, cls, k):
+    if opt == "0":
+        return None
+    if opt == "P":
+        return ("foo", (), f'"p_{cls}"')
+    if opt == "Pd":
+        return ("foo", (), f"self.y{k}")
+    if opt == "Ac":
+        return ("foo", ("additive",), f'"a_{cls}"')
+    return ("foo", ("additive",), f"self.y{k}")
+
+
+_ROOT_PROPS = (("y1", (), "101"), ("y2", (), "202"), ("y3", (), "303"), ("y4", (), "404"))
+
+
+def _chain_universe(alphabet=FOO):
+    """Single inheritance, depth 3: every way of declaring `foo` at every level (plain after
+    additive, additive after plain, ...); the leaf also has a second reader `z` of the deep
+    dependencies, written after `foo` and (family variant _r) before it."""
+    out = [ClassDef("R0", "Object", _ROOT_PROPS, group="chain", instantiate=False)]
+    z = ("z", (), "self.y1 + self.y2 + 1")
+    for o1 in alphabet:
+        n1 = f"S_{o1}"
+        out.append(ClassDef(n1, "R0", tuple(x for x in (_foo_line(o1, n1, 1),) if x), group="chain", family=n1))
+        for o2 in alphabet:
+            n2 = f"{n1}_{o2}"
+            out.append(ClassDef(n2, n1, tuple(x for x in (_foo_line(o2, n2, 2),) if x), group="chain", family=n2))
+            for o3 in alphabet:
+                n3 = f"{n2}_{o3}"
+                f = _foo_line(o3, n3, 3)
+                out.append(ClassDef(n3, n2, tuple(x for x in (f, z) if x), group="chain", family=n3))
+                if f:
+                    out.append(ClassDef(n3 + "_r", n2, (z, f), group="chain", family=n3))
+    return out
+
+
+def _mi_universe(tier):
+    """Multiple inheritance over a common root (diamonds): C(U, V) and C(V, U), `foo`
+    declared in any way in the first base, the non-first base, the root and C itself;
+    final / dynamic / `self.`-dependent plain defaults from first and non-first bases."""
+    ij = ("0", "Pd", "Ad") if tier == "quick" else FOO
+    cs = ("0", "Ac", "Ad") if tier == "quick" else ("0", "P", "Ac", "Ad")
+    out = []
+    for r, rline in (("0", None), ("1", ("foo", ("additive",), "self.y4"))):
+        root = f"R{r}m"
+        out.append(ClassDef(root, "Object", _ROOT_PROPS + ((rline,) if rline else ()), group="mi", instantiate=False))
+        for i in ij:
+            n = f"U{r}_{i}"
+            props = tuple(x for x in (_foo_line(i, n, 1),) if x) + (("fin", ("final",), "self.y1 + 10"), ("w", (), "self.y1 * 2"))
+            out.append(ClassDef(n, root, props, group="mi", family=n))
+        for j in ij:
+            n = f"V{r}_{j}"
+            props = (("dyn", ("dynamic",), "self.y2 + 20"), ("w", (), "self.y2 * 3")) + tuple(x for x in (_foo_line(j, n, 2),) if x)
+            out.append(ClassDef(n, root, props, group="mi", family=n))
+        z = ("z", (), "self.y1 + self.y2 + self.y4 + 1")
+        for i in ij:
+            for j in ij:
+                for c in cs:
+                    for tag, bases in (("uv", (f"U{r}_{i}", f"V{r}_{j}")), ("vu", (f"V{r}_{j}", f"U{r}_{i}"))):
+                        n = f"M{r}_{i}_{j}_{c}_{tag}"
+                        f = _foo_line(c, n, 3)
+                        out.append(ClassDef(n, bases, tuple(x for x in (f, z) if x), group="mi", family=n))
+                        if f and tier != "quick":
+                            out.append(ClassDef(n + "_r", bases, (z, f), group="mi", family=n))
+    return out
+
+
+_GEN_CACHE = {}
+
+
+def generated(group: str, tier: str) -> List[ClassDef]:
+    key = (group, tier if group == "mi" else "")
+    if key not in _GEN_CACHE:
+        _GEN_CACHE[key] = _chain_universe() if group == "chain" else _mi_universe(tier)
+    return _GEN_CACHE[key]
+
+
+GROUPS = ("base", "chain", "mi")
+
+
+def classes_of(group: str, tier: str = "quick") -> List[ClassDef]:
+    return CLASSES if group == "base" else generated(group, tier)
+
+
+def classdefs(group: str, tier: str = "quick") -> Dict[str, ClassDef]:
+    return {c.name: c for c in classes_of(group, tier)}
+
+
+CLASSDEFS = {c.name: c for c in CLASSES}
+
+
 def class_text(c: ClassDef) -> str:
-    lines = [f"class {c.name}({c.base}):"]
+    lines = [f"class {c.name}({', '.join(c.bases)}):"]
     for prop, attrs, expr in c.props:
         a = f"[{', '.join(attrs)}]" if attrs else ""
         lines.append(f"    {prop}{a}: {expr}")
@@ -242,7 +350,26 @@ def class_decls(c: ClassDef, mode2D: bool) -> Dict[str, M.Decl]:
     return out
 
 
-def prelude(mode2D: bool) -> str:
+def prelude(mode2D: bool, group: str = "base", tier: str = "quick", only_families=None) -> str:
+    if group != "base":
+        # class universes: nothing but the classes (plus what their families' bases need)
+        cls = classes_of(group, tier)
+        if only_families is not None:
+            defs = {c.name: c for c in cls}
+            need = set()
+
+            def add(n):
+                if n in defs and n not in need:
+                    need.add(n)
+                    for b in defs[n].bases:
+                        add(b)
+
+            for c in cls:
+                if c.family in only_families:
+                    add(c.name)
+            cls = [c for c in cls if c.name in need]
+        parts = ["import checks.c06 as c06mod"] + [class_text(c) for c in cls if mode2D in c.modes]
+        return "\n".join(parts) + "\n"
     parts = [
         "import checks.c06 as c06mod",
         "workspace = Workspace(RectangularRegion((0, 0, 0), 0, 900, 900))",
@@ -291,6 +418,21 @@ def permutations(ms: Tuple[str, ...]) -> List[Tuple[str, ...]]:
         if p not in seen:
             seen.append(p)
     return seen
+
+
+def plan_generated(tier: str):
+    """[(group, class, mode2D, multiset)] for the class universes: the dependencies of the
+    merged defaults come from class defaults (empty multiset) or from a specifier."""
+    out = []
+    for group in ("chain", "mi"):
+        for mode2D in ((False,) if tier == "quick" else (False, True)):
+            for c in generated(group, tier):
+                if not c.instantiate or mode2D not in c.modes:
+                    continue
+                for size in (0, 1) if tier == "quick" else (0, 1, 2):
+                    for ms in multisets(list(GEN_KEYS), size):
+                        out.append((group, c.name, mode2D, ms))
+    return out
 
 
 def plan(tier: str):
